@@ -50,6 +50,9 @@ func (f *Rem) Call(s *slip.Scope, args slip.List, depth int) (result slip.Object
 	if _, ok := args[1].(slip.Real); !ok {
 		slip.TypePanic(s, depth, "divisor", args[1], "real")
 	}
+	if fd, ok := args[1].(slip.Fixnum); ok && fd == 0 {
+		slip.DivisionByZeroPanic(s, depth, slip.Symbol("rem"), args, "divide by zero")
+	}
 	n, d := slip.NormalizeNumber(args[0], args[1])
 	switch num := n.(type) {
 	case slip.Fixnum:
